@@ -459,7 +459,20 @@ fn const_j<'tcx>(cx: &mut Ctx<'tcx>, body: &Body<'tcx>, c: &ConstOperand<'tcx>) 
                     }
                 }
             }
-            J::Arr(vec![J::s("k"), J::s(txt), t, extra])
+            // evaluated integer value of named constants (None for generic-dependent ones)
+            let mut val = J::Null;
+            if matches!(c.const_, mir::Const::Unevaluated(..)) && (ty.is_integral() || ty.is_bool()) {
+                let tenv = TypingEnv::post_analysis(tcx, body.source.def_id());
+                if let Some(si) = c.const_.try_eval_scalar_int(tcx, tenv) {
+                    let v: i128 = if ty.is_signed() {
+                        si.to_int(si.size())
+                    } else {
+                        si.to_uint(si.size()) as i128
+                    };
+                    val = J::Int(v);
+                }
+            }
+            J::Arr(vec![J::s("k"), J::s(txt), t, extra, val])
         }
     }
 }
